@@ -14,6 +14,7 @@ type Seed struct {
 	Name   string
 	Msg    []byte
 	Fields []Field
+	Plain  bool // emit the message itself only (boundary-value seeds), no derived mutations
 }
 
 var Sigma = []byte{0x00, 0x01, 0x02, 0x03, 0x05, 0x3f, 0x40, 0x7f, 0x80, 0xbf, 0xc0, 0xff}
@@ -80,6 +81,10 @@ func Gen(seeds []Seed, L int, bitflips, thorough bool, emit func(g string, in []
 	rec(nil)
 	for _, s := range seeds {
 		m := s.Msg
+		if s.Plain {
+			emit("boundary", append([]byte{}, m...))
+			continue
+		}
 		emit("valid", append([]byte{}, m...))
 		for i := 0; i < len(m); i++ {
 			emit("prefix", append([]byte{}, m[:i]...))
